@@ -576,16 +576,16 @@ theorem c03_stall_closes {V : Type} (cd : Codec V) (max : Nat) (hmax : max < 2^3
     | closed e => rw [hcl] at this; simp [Event.isClosed] at this
 
 /-- the codec the driver runs is sound whenever no sendable buffer is in the refusal table -/
-theorem tableCodec_sound (reg bad : List (List Nat))
-    (h : ∀ v, (Drv.tableCodec reg bad).sendable v = true → bad.contains v = false) :
-    (Drv.tableCodec reg bad).Sound := by
+theorem tableCodec_sound (reg bad : List (List Nat)) (unenc : List (List Nat) := [])
+    (h : ∀ v, (Drv.tableCodec reg bad unenc).sendable v = true → bad.contains v = false) :
+    (Drv.tableCodec reg bad unenc).Sound := by
   constructor
   · intro v hv
     simp only [Drv.tableCodec, Bool.and_eq_true, decide_eq_true_eq] at hv
     simp [Drv.tableCodec]; omega
   · intro v hv
     simp only [Drv.tableCodec, Bool.and_eq_true, decide_eq_true_eq] at hv
-    exact hv.2
+    exact hv.1.2
   · intro v hv
     have := h v hv
     simp only [Drv.tableCodec, List.take_append_drop, this]
@@ -613,7 +613,7 @@ example : recvAll cdx 20 (Drv.cut (wire [m1] ++ (be32 21 ++ wire [m1, m1])) [3, 
     [.deliver m1, .closed .tooBig] := by rfl
 
 private def cdg : Codec (List Nat) := Drv.tableCodec [tyA] []
-private theorem cdg_sound : cdg.Sound := tableCodec_sound _ _ (by intro v _; rfl)
+private theorem cdg_sound : cdg.Sound := tableCodec_sound _ _ [] (by intro v _; rfl)
 
 /-- the hypotheses of `c03_value_delivery` are satisfiable: a sound codec, two sendable values -/
 example (c : Segs) (hc : c.flatten = wire ([m1, m2].map (bufOf cdg))) :
@@ -1203,6 +1203,234 @@ theorem c03_iface_full_fails : ¬ C03_iface_full := by
   rw [show SuiteId.p256.make .scalar = .p256S from rfl,
     c03_iface_modint_clash .p256S (.inl rfl) (some .p256) .scalar [1] (by simp)] at h1
   cases h1
+
+
+/-! ### the type registry -/
+
+theorem typeIdOf_length (t : GoType) : (typeIdOf t).length = 16 := Sha1.uuid5_length _ _
+
+theorem registry_get_put_same (r : Registry) (id : List Nat) (t : GoType) : (r.put id t).get id = some t := by
+  simp [Registry.get, Registry.put]
+
+theorem registry_get_put_other (r : Registry) (id id' : List Nat) (t : GoType) (h : id' ≠ id) :
+    (r.put id t).get id' = r.get id' := by
+  have : (id == id') = false := by simpa using fun e => h e.symm
+  simp [Registry.get, Registry.put, this]
+
+theorem registerAll_cons (r : Registry) (u : GoType) (ts : List GoType) :
+    registerAll r (u :: ts) = registerAll (r.put (typeIdOf u) u) ts := by
+  simp [registerAll, registerMessage]
+
+/-- **the last registration under an id wins**, for every history of `RegisterMessage` calls: what
+`registry.get` answers for the id of `t` is the last registered type with that id. -/
+theorem c03_registry_last_wins (r : Registry) (ts : List GoType) (t : GoType) :
+    (registerAll r ts).get (typeIdOf t) =
+      match ts.reverse.find? (fun u => typeIdOf u == typeIdOf t) with
+      | some u => some u
+      | none => r.get (typeIdOf t) := by
+  induction ts generalizing r with
+  | nil => rfl
+  | cons u ts ih =>
+    rw [registerAll_cons, ih, List.reverse_cons, List.find?_append]
+    cases hf : ts.reverse.find? (fun u => typeIdOf u == typeIdOf t) with
+    | some w => rfl
+    | none =>
+      by_cases h : typeIdOf u = typeIdOf t
+      · simp [h, registry_get_put_same]
+      · have : (typeIdOf u == typeIdOf t) = false := by simpa using h
+        simp [this, registry_get_put_other _ _ _ _ (fun e => h e.symm)]
+
+/-- **a registered type whose id no other registered type shares is found under its id** — whatever
+else was registered before or after it. -/
+theorem c03_registry_faithful (r : Registry) (ts : List GoType) (t : GoType) (ht : t ∈ ts)
+    (huniq : ∀ u ∈ ts, typeIdOf u = typeIdOf t → u = t) :
+    (registerAll r ts).get (typeIdOf t) = some t := by
+  rw [c03_registry_last_wins]
+  cases hf : ts.reverse.find? (fun u => typeIdOf u == typeIdOf t) with
+  | some u =>
+    have hm := List.mem_of_find?_eq_some hf
+    have hp := List.find?_some hf
+    simp only [beq_iff_eq] at hp
+    simp [huniq u (by simpa using hm) hp]
+  | none =>
+    have := List.find?_eq_none.mp hf t (by simpa using ht)
+    simp at this
+
+/-- collision resistance of the hash, as a hypothesis: equal ids come from equal names -/
+def HashInj : Prop := ∀ a b : GoType, typeIdOf a = typeIdOf b → a.name = b.name
+
+/-- … so, the hash being collision-free, it is enough that no other registered type has the same
+**name** (`reflect.Type.String()`) -/
+theorem c03_registry_faithful_names (hinj : HashInj) (r : Registry) (ts : List GoType) (t : GoType)
+    (ht : t ∈ ts) (huniq : ∀ u ∈ ts, u.name = t.name → u = t) :
+    (registerAll r ts).get (typeIdOf t) = some t :=
+  c03_registry_faithful r ts t ht fun u hu e => huniq u hu (hinj u t e)
+
+/-- the full statement one would like: every registered type is found under its own id -/
+def C03_registry_full : Prop :=
+  ∀ (ts : List GoType) (t : GoType), t ∈ ts → (registerAll [] ts).get (typeIdOf t) = some t
+
+/-- **it is false on the code** (known finding): two distinct Go types with the same
+`reflect.Type.String()` — same package *name* in two paths, or two types declared inside functions —
+get the same id; the later registration replaces the earlier one, and a value of the first type is
+unmarshalled into the second. -/
+theorem c03_type_name_clash : ¬ C03_registry_full := by
+  intro h
+  have := h [⟨[72], 0⟩, ⟨[72], 1⟩] ⟨[72], 0⟩ (by simp)
+  have e : typeIdOf ⟨[72], 0⟩ = typeIdOf ⟨[72], 1⟩ := rfl
+  rw [show registerAll [] [⟨[72], 0⟩, ⟨[72], 1⟩] = (registerAll [] [⟨[72], 0⟩]).put (typeIdOf ⟨[72], 1⟩) ⟨[72], 1⟩ from rfl,
+    e, registry_get_put_same] at this
+  cases this
+
+/-- the codec over a registry satisfies the hypothesis of the delivery theorems as soon as every
+sendable value's type is found under its own id -/
+theorem c03_codecOf_sound {V : Type} (r : Registry) (tc : TCodec V) (htc : tc.Sound)
+    (hf : ∀ v, (codecOf r tc).sendable v = true → r.get (typeIdOf (tc.typeOf v)) = some (tc.typeOf v)) :
+    (codecOf r tc).Sound := by
+  constructor
+  · intro v _; exact typeIdOf_length _
+  · intro v hv
+    simp only [codecOf, Bool.and_eq_true] at hv
+    exact hv.1
+  · intro v hv
+    have h1 := hf v hv
+    simp only [codecOf, Bool.and_eq_true] at hv
+    simp only [codecOf, h1]
+    exact htc.roundtrip v hv.2
+
+/-- **a value of a registered type arrives as an equal value of the same type**: for every history
+of registrations in which no other type shares its id, `Unmarshal (Marshal v) = v` -/
+theorem c03_registered_value_roundtrip {V : Type} (tc : TCodec V) (htc : tc.Sound) (r : Registry)
+    (ts : List GoType) (v : V) (ht : tc.typeOf v ∈ ts)
+    (huniq : ∀ u ∈ ts, typeIdOf u = typeIdOf (tc.typeOf v) → u = tc.typeOf v)
+    (henc : tc.encodable v = true) :
+    ∃ b, marshal (codecOf (registerAll r ts) tc) v = some b ∧
+      unmarshal (codecOf (registerAll r ts) tc) b = .ok v := by
+  have hget := c03_registry_faithful r ts (tc.typeOf v) ht huniq
+  have hs : (codecOf (registerAll r ts) tc).sendable v = true := by simp [codecOf, hget, henc]
+  refine ⟨_, marshal_bufOf _ v hs, ?_⟩
+  have hl := typeIdOf_length (tc.typeOf v)
+  unfold unmarshal bufOf
+  have t16 : ((codecOf (registerAll r ts) tc).tyOf v ++ (codecOf (registerAll r ts) tc).enc v).take 16 =
+      typeIdOf (tc.typeOf v) := by
+    simp only [codecOf]
+    rw [List.take_append_of_le_length (by omega)]; exact List.take_of_length_le (by omega)
+  have d16 : ((codecOf (registerAll r ts) tc).tyOf v ++ (codecOf (registerAll r ts) tc).enc v).drop 16 =
+      tc.enc v := by
+    simp only [codecOf]
+    rw [List.drop_append_of_le_length (by omega)]
+    simp [List.drop_of_length_le (show (typeIdOf (tc.typeOf v)).length ≤ 16 by omega)]
+  rw [if_neg (by simp [codecOf]; omega), t16, d16]
+  simp [codecOf, hget, htc.roundtrip v henc]
+
+
+/-! ### the envelope -/
+
+theorem classifyEnv_erase {V : Type} (cd : Codec V) (remote : Nat) (procs : List (List Nat)) (b : List Nat) :
+    (classifyEnv cd remote procs b).erase = classify cd b := by
+  unfold classifyEnv classify react
+  cases unmarshal cd b with
+  | ok v => simp only []; split <;> rfl
+  | error e => simp only []; split <;> rfl
+
+theorem classifyEnv_not_closed {V : Type} (cd : Codec V) (remote : Nat) (procs : List (List Nat)) (b : List Nat) :
+    (classifyEnv cd remote procs b).isClosed = false := by
+  have h := classify_not_closed cd b
+  rw [← classifyEnv_erase cd remote procs b] at h
+  cases hc : classifyEnv cd remote procs b <;> simp [hc, EnvEvent.erase, Event.isClosed, EnvEvent.isClosed] at h ⊢
+
+/-- the loop with the envelope in view is the loop of the delivery theorems: forgetting the
+envelope fields gives exactly its events (so every theorem about `recvLoop` speaks about it) -/
+theorem recvEnvLoop_erase {V : Type} (cd : Codec V) (max remote : Nat) (procs : List (List Nat))
+    (fuel : Nat) (c : Segs) :
+    (recvEnvLoop cd max remote procs fuel c).map EnvEvent.erase = recvLoop cd max fuel c := by
+  induction fuel generalizing c with
+  | zero => rfl
+  | succ fuel ih =>
+    obtain ⟨r, c', hr⟩ := recvFrame_pair max c
+    cases r with
+    | error e =>
+      rw [recvLoop_err cd max fuel c c' e hr]
+      rcases recvFrame_err max c e (by rw [hr]) with rfl | rfl <;>
+        simp [recvEnvLoop, hr, sentinelOf, fatal, EnvEvent.erase]
+    | ok b =>
+      rw [recvLoop_ok cd max fuel c c' b hr]
+      simp only [recvEnvLoop, hr, classifyEnv_not_closed, Bool.false_eq_true, if_false, List.map_cons,
+        classifyEnv_erase, ih c']
+
+/-- **what a processor is handed**: for every sequence of sendable values within the limit, under
+every segmentation, the receive loop dispatches one envelope per value, in order — `Msg` the value
+sent, `MsgType` the id of its type (so the dispatcher picks the processor registered for *that*
+type), `ServerIdentity` the peer of the connection, `Size` the length of the marshalled buffer —
+to the processor registered for the type, or drops it with "no processor" when there is none. -/
+theorem c03_envelope_fields {V : Type} (cd : Codec V) (hcd : cd.Sound) (max remote : Nat) (hmax : max < 2^32)
+    (procs : List (List Nat)) (vs : List V)
+    (hv : ∀ v ∈ vs, cd.sendable v = true ∧ (bufOf cd v).length ≤ max)
+    (fuel : Nat) (hfuel : vs.length + 1 ≤ fuel) (c : Segs) (hc : c.flatten = wire (vs.map (bufOf cd))) :
+    recvEnvLoop cd max remote procs fuel c =
+      vs.map (fun v =>
+        let env : Envelope V := { sender := remote, msgType := cd.tyOf v, msg := v, size := (bufOf cd v).length }
+        if procs.contains (cd.tyOf v) then EnvEvent.processed env else EnvEvent.noProcessor env)
+      ++ [.closed .eof] := by
+  induction vs generalizing c fuel with
+  | nil =>
+    cases fuel with
+    | zero => omega
+    | succ fuel =>
+      have h1 := recvFrame_short_header max c (by rw [hc]; simp [wire])
+      obtain ⟨r, c', hr⟩ := recvFrame_pair max c
+      rw [hr] at h1
+      simp only at h1
+      subst h1
+      simp [recvEnvLoop, hr, sentinelOf, fatal]
+  | cons v rest ih =>
+    cases fuel with
+    | zero => omega
+    | succ fuel =>
+      have hvv := hv v (by simp)
+      obtain ⟨c', e1, f1⟩ := recvFrame_enc max (bufOf cd v) (wire (rest.map (bufOf cd))) c hvv.2 (by omega)
+        (by rw [hc, List.map_cons, wire_cons])
+      have hun : unmarshal cd (bufOf cd v) = .ok v :=
+        c03_marshal_roundtrip cd hcd v (bufOf cd v) (marshal_bufOf cd v hvv.1)
+      have hl := hcd.ty_len v hvv.1
+      have t16 : (bufOf cd v).take 16 = cd.tyOf v := by
+        unfold bufOf
+        rw [List.take_append_of_le_length (by omega)]; exact List.take_of_length_le (by omega)
+      have hcl : classifyEnv cd remote procs (bufOf cd v) =
+          (if procs.contains (cd.tyOf v) then
+            EnvEvent.processed { sender := remote, msgType := cd.tyOf v, msg := v, size := (bufOf cd v).length }
+           else EnvEvent.noProcessor { sender := remote, msgType := cd.tyOf v, msg := v, size := (bufOf cd v).length }) := by
+        simp only [classifyEnv, hun, t16]
+      have hnc := classifyEnv_not_closed cd remote procs (bufOf cd v)
+      simp only [recvEnvLoop, e1, hnc, Bool.false_eq_true, if_false, List.map_cons, List.cons_append]
+      rw [ih (fun w hw => hv w (by simp [hw])) fuel (by simp at hfuel; omega) c' f1, hcl]
+
+/-- **sending to oneself** (`Router.Send` with the router's own identity): no wire at all — every
+value whose type is registered, encodable and has a processor is dispatched at once, in order, as
+the very value sent, with the id of its type and the router's own identity; `Send` reports success. -/
+theorem c03_self_send {V : Type} (r : Registry) (tc : TCodec V) (self : Nat) (procs : List (List Nat))
+    (vs : List V)
+    (hv : ∀ v ∈ vs, (codecOf r tc).sendable v = true ∧ procs.contains (typeIdOf (tc.typeOf v)) = true) :
+    selfSend r tc self procs vs =
+      (vs.map fun v => { sender := self, msgType := typeIdOf (tc.typeOf v), msg := v, size := 0 }, true) := by
+  induction vs with
+  | nil => rfl
+  | cons v rest ih =>
+    have hvv := hv v (by simp)
+    have hreg : (r.get (typeIdOf (tc.typeOf v))).isSome = true := by
+      have := hvv.1; simp only [codecOf, Bool.and_eq_true] at this; exact this.1
+    have hmt : messageType r (tc.typeOf v) = typeIdOf (tc.typeOf v) := by simp [messageType, hreg]
+    simp only [selfSend, hmt, hvv.2, hvv.1, if_true, List.map_cons]
+    rw [ih (fun w hw => hv w (by simp [hw]))]
+
+/-- a value of an unregistered type sent to oneself is refused before anything is dispatched (the
+envelope would carry `ErrorType`, for which nobody registers a processor) -/
+theorem c03_self_send_unregistered {V : Type} (r : Registry) (tc : TCodec V) (self : Nat)
+    (procs : List (List Nat)) (v : V) (l : List V)
+    (hreg : r.get (typeIdOf (tc.typeOf v)) = none) (hp : procs.contains errorType = false) :
+    selfSend r tc self procs (v :: l) = ([], false) := by
+  have hmt : messageType r (tc.typeOf v) = errorType := by simp [messageType, hreg]
+  simp only [selfSend, hmt, hp, Bool.false_eq_true, if_false]
 
 /-! ### the code regions the model stands for
 Regenerated from /repo's source on every run (`harness/cmd/astfacts` → `OnetVerif/Shapes.lean`): the
